@@ -75,6 +75,7 @@ pub mod live_join;
 pub mod live_rwlock;
 pub mod live_life;
 pub mod live_cancel;
+pub mod live_sleep;
 pub mod live_io;
 pub mod live_scope;
 pub mod live_panic;
@@ -104,6 +105,7 @@ pub fn build_live(family: &str, rng: &mut Rng, tier: u32) -> Option<LiveBuilt> {
         "rwlock_live" => Some(live_rwlock::build(rng, tier)),
         "life" => Some(live_life::build(rng, tier)),
         "cancel" => Some(live_cancel::build(rng, tier)),
+        "sleep_live" => Some(live_sleep::build(rng, tier)),
         "cancel_mutex" => Some(live_cancel::build_mutex(rng, tier)),
         "cancel_cvlock" => Some(live_cancel::build_cvlock(rng, tier)),
         "io_stream" => Some(live_io::build_stream(rng, tier)),
